@@ -8,7 +8,7 @@ frontend) and returns a `Built` with the file and the list of addressable units:
     path (i,)          i-th program unit of the file (Module or Subroutine/Function)
     path (i, j)        j-th procedure contained in unit i (module procedure or internal procedure)
 
-The zoo is ordered smallest first; `ZOO_QUICK` is the prefix/selection used by quick tiers.
+31 entries; the zoo is ordered by family (routines, modules, files); `ZOO_QUICK` is the prefix/selection used by quick tiers.
 Features per entry are listed in `features` so that a check can assert coverage (vacuity guards).
 """
 import collections
